@@ -877,7 +877,7 @@ def run(ctx, rep):
         names = [n for n in f.param_names()] if hasattr(f, "param_names") else []
         for k, n in enumerate(names):
             role[n] = "c%d" % k
-        t = expr.inline(F, Terms(f).local(0), alg_pred(()), depth=4)
+        t = expr.inline(F, Terms(f).local(0), alg_pred(("simplicity::merkle::cmr::Cmr::",)), depth=6)   # private helpers shared by sibling constructors
         rust = rust_recipe(t, ty, "cmr", role=role)
         compare_recipe("cmr", v, tag, rust, c_recipe(cmr_f["body"], tag, ty, is_cmr))
     # TMR
@@ -889,7 +889,7 @@ def run(ctx, rep):
         ty = typings["Witness"]
         names = f.param_names() if hasattr(f, "param_names") else []
         role = {n: "arg%d" % k for k, n in enumerate(names)}
-        t = expr.inline(F, Terms(f).local(0), alg_pred(()), depth=4)
+        t = expr.inline(F, Terms(f).local(0), alg_pred(("simplicity::merkle::tmr::Tmr::",)), depth=6)
         rust = rust_recipe(t, ty, "tmr", role=role)
         loops = cbody.find(ty_f["body"], lambda s: s[0] == "for")
         body = loops[0][4]
